@@ -11,6 +11,7 @@
 import ASV.Proofs.ParallelSpec
 import ASV.Proofs.ParallelState
 import ASV.Proofs.ParallelWorkers
+import ASV.Proofs.ParallelPickle
 namespace ASV.C18
 open ASV ASV.Parallel
 
@@ -333,6 +334,48 @@ theorem shipped_state_one_cpu {σ : Type} (configCpus cpus : Nat) (g : σ → α
     (h1 : resolveCpus configCpus cpus = 1) (hseq : threaded g s₀ args = .ok (sf, bs)) :
     parallelFunctionShipped configCpus g s₀ args cpus hasTimeout evs = .returned (bs.map some) := by
   simp [parallelFunctionShipped, h1, hseq]
+
+/-! ### how a `Record` is pickled (tables regenerated from `secmet/record.py` on every run) -/
+
+/-- the class defines no pickling hook of its own (`__getstate__`, `__setstate__`, `__reduce__`,
+    `__reduce_ex__`, `__getnewargs__`, …): copyreg's slot-by-slot state is what travels.  A change
+    that adds one (seeded change C18_3 of round 4) breaks this obligation at build time. -/
+theorem record_uses_default_pickling : defaultPickling = true := by decide
+
+/-- no slot of `Record` bears a name that `Record.__setattr__` diverts to the wrapped `SeqRecord`
+    (or to `add_annotation`) … -/
+theorem record_slots_not_diverted :
+    ∀ s ∈ ASV.Generated.RecordPickle.recordSlots, storedInSlot s = true := by decide
+
+/-- … hence rebuilding an instance from its slot state (`setattr` per slot, through
+    `Record.__setattr__`) restores exactly the slot state that was pickled: every slot — the wrapped
+    `SeqRecord` with its dbxrefs, letter annotations and features included — comes back, none is
+    diverted or dropped -/
+theorem record_slot_state_roundtrip {V : Type} (st : SlotState V)
+    (h : ∀ kv ∈ st, kv.1 ∈ ASV.Generated.RecordPickle.recordSlots) : rebuildSlots st = st :=
+  rebuildSlots_id st fun kv hkv => record_slots_not_diverted kv.1 (h kv hkv)
+
+/-- a `__getstate__` that ships a wrapped record rebuilt from seq/id/name/description/annotations
+    is faithful **iff** the record carries no database cross references, no per-letter annotations
+    and no Biopython features -/
+theorem rebuilt_wrapped_faithful_iff {V : Type} (empty : V) (w : Wrapped V) :
+    rebuiltWrapped empty w = w ↔ w.dbxrefs = empty ∧ w.letterAnnotations = empty ∧ w.features = empty := by
+  cases w
+  simp only [rebuiltWrapped, Wrapped.mk.injEq, true_and]
+  constructor
+  · rintro ⟨h1, h2, h3⟩; exact ⟨h1.symm, h2.symm, h3.symm⟩
+  · rintro ⟨h1, h2, h3⟩; exact ⟨h1.symm, h2.symm, h3.symm⟩
+
+/-- with such a `__getstate__` on the argument and result path (`pa = pb = rebuiltWrapped`), the
+    identity worker returns a record that differs from the in-process one as soon as it has a DBLINK -/
+example : parallelFunctionWire (rebuiltWrapped ([] : List String)) (rebuiltWrapped []) id 1
+    (fun (w : Wrapped (List String)) => (Except.ok w : Except String (Wrapped (List String))))
+    [⟨["ACGT"], ["r1"], ["r1"], ["d"], ["topology=linear"], ["BioProject:PRJNA1"], [], ["CDS 1..9"]⟩,
+     ⟨["AC"], ["r2"], ["r2"], ["d"], [], [], [], []⟩] 2 false [.done 1, .done 0] =
+    .returned [some ⟨["ACGT"], ["r1"], ["r1"], ["d"], ["topology=linear"], [], [], []⟩,
+               some ⟨["AC"], ["r2"], ["r2"], ["d"], [], [], [], []⟩] := by decide
+example : storedInSlot "_record" = true ∧ storedInSlot "annotations" = false ∧ storedInSlot "id" = false := by
+  decide
 
 /-! ### the worker functions of `pre_process_sequences` (pure functions of the record) -/
 
